@@ -223,6 +223,57 @@ def _reject_body(case, acc, seed, lentil):
     acc.case(case, outcome='reject')
 
 
+def chk_big_seeds(case, acc, seed):
+    """seeds are not taken modulo anything the caller can see: seeds that differ by 2^32, 2^33 (and sequences that do) differ"""
+    import lentil
+    shape = (6, 7)
+    fns = {'dark': lambda s: lentil.detector.dark_current(20.5, shape=shape, fpn_factor=0.2, seed=s),
+           'rule07': lambda s: lentil.detector.rule07_dark_current(150, 5e-6, 18e-6, shape=shape, fpn_factor=0.3, seed=s),
+           'read': lambda s: lentil.detector.read_noise(np.full(shape, 10.0), 3.0, seed=s),
+           'shot': lambda s: lentil.detector.shot_noise(np.full(shape, 50.0), seed=s),
+           'psd': lambda s: lentil.power_spectrum(psd_mask(shape), pixelscale=1e-3, rms=1e-9, half_power_freq=5, exp=3, seed=s)}
+    seeds = [7, 2 ** 32 + 7, 2 ** 33 + 7, 2 ** 64 + 7, [5, 6], [2 ** 32 + 5, 6], [5, 2 ** 32 + 6]]
+    for name, fn in fns.items():
+        try:
+            d = [dig(np.asarray(fn(s))) for s in seeds]
+        except Exception as e:
+            acc.violation(f'{name}:large-seed:raises:{type(e).__name__}', dict(case, model=name), repr(e))
+            continue
+        if len(set(d)) != len(seeds):
+            k = [i for i in range(len(seeds)) if d.index(d[i]) != i][0]
+            acc.violation(f'{name}:seeds-collide:large', dict(case, model=name), f'seeds {seeds[d.index(d[k])]} and {seeds[k]} give the same draw')
+    acc.cls('large-seeds')
+    acc.case(case, outcome='big-seeds')
+
+
+def chk_processes(case, acc, seed):
+    """a seeded draw is a function of its arguments and seed in every interpreter: two fresh processes with different string-hash
+    salts (PYTHONHASHSEED) give the draw this process gives"""
+    import subprocess
+    import sys
+    code = ('import sys, os, json, hashlib; sys.path.insert(0, os.environ["LENTIL_SRC_"]); import numpy as np, lentil\n'
+            'h = lambda a: hashlib.blake2b(np.ascontiguousarray(a).tobytes(), digest_size=8).hexdigest()\n'
+            'm = np.zeros((6, 7)); m[1:-1, 1:-1] = 1; m[3, 3] = 0\n'
+            'out = {"read": h(lentil.detector.read_noise(np.full((6, 7), 10.0), 3.0, seed=11)), "shot": h(lentil.detector.shot_noise(np.full((6, 7), 50.0), seed=11)),'
+            ' "dark": h(lentil.detector.dark_current(20.5, shape=(6, 7), fpn_factor=0.2, seed=11)), "psd": h(lentil.power_spectrum(m, pixelscale=1e-3, rms=1e-9, half_power_freq=5, exp=3, seed=11)),'
+            ' "gauss": h(lentil.detector.shot_noise(np.full((6, 7), 5000.0), method="gaussian", seed=11))}\n'
+            'print(json.dumps(out))')
+    import json as _json
+    outs = []
+    for salt in ('1', '2'):
+        env = dict(os.environ, PYTHONHASHSEED=salt, LENTIL_SRC_=engine.LENTIL_SRC)
+        r = subprocess.run([sys.executable, '-W', 'ignore', '-c', code], capture_output=True, text=True, env=env, timeout=120)
+        if r.returncode != 0:
+            acc.violation('process:raises', dict(case, salt=salt), r.stderr[-300:])
+            return
+        outs.append(_json.loads(r.stdout.strip().splitlines()[-1]))
+    for k in outs[0]:
+        if outs[0][k] != outs[1][k]:
+            acc.violation(f'{k}:differs-between-processes', dict(case, model=k), f'the seeded {k} draw differs between two interpreter processes (string-hash salts 1 and 2)')
+    acc.cls('processes')
+    acc.case(case, outcome='processes')
+
+
 def chk_cosmic(case, acc, seed):
     import lentil
     k, shape, ps = case['state'], tuple(case['shape']), tuple(case['pixelscale'])
@@ -288,7 +339,7 @@ def chk_history(case, acc, seed):
     acc.case(case, outcome='history')
 
 
-DISPATCH = {'seed': chk_seed, 'reject': chk_reject, 'cosmic': chk_cosmic, 'history': chk_history}
+DISPATCH = {'bigseeds': chk_big_seeds, 'processes': chk_processes, 'seed': chk_seed, 'reject': chk_reject, 'cosmic': chk_cosmic, 'history': chk_history}
 
 
 DISPATCH['histop'] = histories.chk_case
@@ -314,6 +365,8 @@ def run(tier, seed, acc, procs=None):
     for lo in range(0, n, 16):
         tasks.append(('t_cosmic', {'tier': tier, 'seed': seed, 'lo': lo}))
     acc.states += 1
+    tasks.append(('t_one', {'seed': seed, 'case': {'kind': 'bigseeds'}}))
+    tasks.append(('t_one', {'seed': seed, 'case': {'kind': 'processes'}}))
     for after in REFUSED:
         tasks.append(('t_one', {'seed': seed, 'case': {'kind': 'reject', 'after': after}}))
     for fname in FRAMES:
@@ -332,7 +385,7 @@ def run(tier, seed, acc, procs=None):
                         'moment claims are sample statistics with 6-sigma bounds (deterministic for the enumerated seeds), not distributional proofs',
                         'Gaussian shot noise only in its documented large-count regime (>= 1000 counts)'],
         'require': {'psd:non-square': 50, 'psd:square': 50, 'shot-poisson:square': 100, 'read:non-square': 50, 'seed-pairs': 1000,
-                    'rejections': 10, 'history': 9, 'psd-rms-extreme': 100},
+                    'rejections': 10, 'history': 9, 'psd-rms-extreme': 100, 'large-seeds': 1, 'processes': 1},
         'expect': {'cosmic-hit': 20, 'prior-call-refused': 8},
     }
 
